@@ -29,7 +29,7 @@ def _snapshot(w, pool):
             [(r["state"], r["cancels"]) for r in w.W], w.live)
 
 
-def tpl_group(size, kb, conc, who, s, o1, a1, o3, a3, settle0, t, order, _twin=False):
+def tpl_group(size, kb, conc, who, s, o1, a1, o3, a3, settle0, t, order, re=0, _twin=False):
     """who: 0 cancel_group(B), 1 cancel_all().  s: placement (0 boundary, 1 next worker start, 2 next end
     callback, 3 next cancel callback).  settle0: 1 = the requests settle first and step 1 (release/cancel one
     task) precedes the early placement t; 0 = the cancellation lands t iterations after the requests."""
@@ -85,8 +85,12 @@ def tpl_group(size, kb, conc, who, s, o1, a1, o3, a3, settle0, t, order, _twin=F
                 rb["unfinished"] = [x["wid"] for x in it.workers_of(rb) if x["state"] == "run"]
                 ra["unfinished"] = [x["wid"] for x in it.workers_of(ra) if x["state"] == "run"]
             site = site_of(s)
+            rb2 = None
             if site is None:
                 do()
+                if re == 1 and who == 0 and done["err"] is None:
+                    # the freed name is requested again in the same tick ...
+                    rb2 = it.map(3, conc, stars=0, group="B")
             else:
                 w.op("arm", site)
                 w.arm(site, do)
@@ -97,6 +101,16 @@ def tpl_group(size, kb, conc, who, s, o1, a1, o3, a3, settle0, t, order, _twin=F
             w.settle()
             if w.excluded:
                 raise Excluded(w.excluded)
+            if rb2 is not None:
+                # ... and that second incarnation is cancelled later: the same guarantees hold for it
+                w.op("cgroupB-again")
+                e2 = w.do_cancel_group(pool, "B")
+                if e2 is not None:
+                    done["err"] = e2
+                else:
+                    it._mark_cancelled(rb2)
+                    rb2["unfinished"] = [x["wid"] for x in it.workers_of(rb2) if x["state"] == "run"]
+                done["rb2"] = rb2
             w.drain()
             if w.excluded:
                 raise Excluded(w.excluded)
@@ -117,6 +131,8 @@ def _final(w, it, pool, size, who, ra, rb, done):
     if done["err"] is not None:
         return 710
     cancelled = [rb] if who == 0 else [ra, rb]
+    if done.get("rb2") is not None and done["rb2"]["cancelled"]:
+        cancelled = [rb, done["rb2"]]
     for r in cancelled:
         ws = it.workers_of(r)
         if len(ws) != r["started_at_cancel"]:
@@ -231,9 +247,9 @@ def tpl_sgroup(size, who, o1, a1, o3, a3, settle0, t, _twin=False):
 
 def families(tier):
     thorough = tier == "thorough"
-    P = ["size", "kb", "conc", "who", "s", "o1", "a1", "o3", "a3", "settle0", "t", "order"]
+    P = ["size", "kb", "conc", "who", "s", "o1", "a1", "o3", "a3", "settle0", "t", "order", "re"]
     pre = ["size >= 0", "0 <= kb <= 2", "1 <= conc <= 3", "0 <= who <= 1", "0 <= s <= 3", "0 <= o1 <= 3", "a1 >= 0",
-           "0 <= o3 <= 2", "a3 >= 0", "0 <= settle0 <= 1", "t >= 0", "0 <= order <= 1", "settle0 == 1 or o1 == 0", "kb >= 1 or conc == 1"]
+           "0 <= o3 <= 2", "a3 >= 0", "0 <= settle0 <= 1", "t >= 0", "0 <= order <= 1", "0 <= re <= 1", "re == 0 or (s == 0 and who == 0)", "settle0 == 1 or o1 == 0", "kb >= 1 or conc == 1"]
     if not thorough:
         pre += ["kb <= 1", "kb == 0 or conc == 2", "1 <= size <= 3", "s == 0 or o3 >= 1", "s == 0 or settle0 == 1", "o1 <= 1 or o1 == 3",
                 "settle0 == 0 or order == 0", "a1 <= 2", "a3 <= 2", "s == 0 or who == 0", "o1 != 3 or s == 0"]
@@ -268,4 +284,4 @@ def families(tier):
                   twin_pre=["who == 0", "settle0 == 1", "o3 == 0", "o1 == 0"], twin_args=[2, 0, 0, 0, 0, 0, 1, 9])
     return [sfam, Family(name="group", fn="tpl_group", params=P, pre=pre, parts=parts,
                    twin_pre=["kb == 1", "who == 0", "s == 0", "settle0 == 1", "o1 == 0", "o3 == 0", "conc == 2"],
-                   twin_args=[3, 1, 2, 0, 0, 0, 0, 0, 0, 1, 9, 0])]
+                   twin_args=[3, 1, 2, 0, 0, 0, 0, 0, 0, 1, 9, 0, 0])]
